@@ -30,6 +30,17 @@ def _compile_scope(root):
                 if isinstance(x, ast.Subscript) and "metamodel" in ast.unparse(x.value) and not isinstance(getattr(x, "_parent", None), ast.Assign): work.append("__getitem__")
     return seen
 TEXTX_ERRORS = {"TextXError", "TextXSemanticError", "TextXSyntaxError", "TextXRegistrationError"}
+
+def _textx_raise(r, tree):
+    """does `raise X` raise a TextX error?  X is a TextX error constructor call, or a call of a uniquely named function/method of
+    the module whose every value return is such a constructor call (error construction extracted into a helper)"""
+    if not (isinstance(r, ast.Raise) and isinstance(r.exc, ast.Call)): return False
+    nm = callee_name(r.exc)
+    if nm in TEXTX_ERRORS: return True
+    ds = [d for d in ast.walk(tree) if isinstance(d, ast.FunctionDef) and d.name == nm]
+    if len(ds) != 1: return False
+    rets = [x for x in ast.walk(ds[0]) if isinstance(x, ast.Return) and x.value is not None]
+    return bool(rets) and all(isinstance(x.value, ast.Call) and callee_name(x.value) in TEXTX_ERRORS for x in rets)
 ASSERT_OK = {   # one line of reason each
     ("_new_import", "self.root_path is not None"): "documented exception: import in a grammar given as a string",
     ("_resolve_rule", "isinstance(rule, ParsingExpression)"): "internal invariant: every cross-ref was replaced by an expression above",
@@ -48,7 +59,7 @@ def r_C23(root):
                 if isinstance(n, ast.Raise) and n.exc is not None:
                     inst += 1
                     cls = callee_name(n.exc) if isinstance(n.exc, ast.Call) else (n.exc.id if isinstance(n.exc, ast.Name) else None)
-                    if cls in TEXTX_ERRORS: continue
+                    if cls in TEXTX_ERRORS or _textx_raise(n, load(root, rel)): continue
                     if isinstance(n.exc, ast.Name) and any(isinstance(a, ast.ExceptHandler) and a.name == n.exc.id for a in ancestors(n)): continue   # re-raise of caught
                     if cls == "KeyError" and nm == "__getitem__":
                         continue      # lookup miss; callers are checked below
@@ -69,14 +80,14 @@ def r_C23(root):
                     for a in ancestors(n):
                         if isinstance(a, ast.Try) and any(n is x for b in a.body for x in ast.walk(b)):
                             for h in a.handlers:
-                                if any(isinstance(r, ast.Raise) and isinstance(r.exc, ast.Call) and callee_name(r.exc) in TEXTX_ERRORS for r in ast.walk(h)): prot = True
+                                if any(_textx_raise(r, load(root, rel)) for r in ast.walk(h)): prot = True
                         if isinstance(a, (ast.FunctionDef,)): break
                     guarded = False
                     if cn == "compile":
                         try:
                             dq = qualname(d); di = find_i(root, rel, dq); fdi = sem.info(di)
                             comps = [x for x in calls(di, own=True) if callee_name(x) == "compile" and ast.unparse(x) == ast.unparse(n)]
-                            guarded = bool(comps) and all(any(pol and any(k in a_.replace(" ", "") for k in ("span()==(0,len(", "end()==len(", "fullmatch(", "group()==")) for a_, pol in fdi.atoms_at(x)) for x in comps)
+                            guarded = bool(comps) and all(full_match_guard(fdi.atoms_at(x)) for x in comps)
                         except AnalysisError: guarded = False
                     regex_safe = cn == "int" and d.name == "visit_integer"     # argument matched by [-+]?[0-9]+
                     module_level = False
@@ -86,7 +97,7 @@ def r_C23(root):
                         while isinstance(getattr(target, "_parent", None), ast.FunctionDef) and not any(callee_name(c2) == target.name for n2, l2 in scope.items() for r2, d2 in l2 for c2 in calls(d2)):
                             target = target._parent      # nested helper used as a callback: look at callers of the enclosing function
                         callers = [(r2, d2, c2) for n2, l2 in scope.items() for r2, d2 in l2 for c2 in calls(d2) if callee_name(c2) == target.name and d2 is not target]
-                        if callers and all(any(isinstance(a, ast.Try) and any(isinstance(r, ast.Raise) and isinstance(r.exc, ast.Call) and callee_name(r.exc) in TEXTX_ERRORS for h in a.handlers for r in ast.walk(h)) for a in ancestors(c2)) for _, _, c2 in callers): prot = True
+                        if callers and all(any(isinstance(a, ast.Try) and any(_textx_raise(r, load(root, rel2)) for h in a.handlers for r in ast.walk(h)) for a in ancestors(c2)) for rel2, _, c2 in callers): prot = True
                     if not (prot or guarded or regex_safe):
                         out.append(Finding("C23", "C23.b", rel, qualname(n), " ".join(ast.unparse(stmt_of(n)).split())[:90], "%s is not converted to a TextXError" % RAISERS[cn]))
     # KeyError lookups on the metamodel must be guarded or caught
